@@ -45,6 +45,7 @@ func vAlphabet(thorough bool) []vRule {
 		{"", "", "include:A"},
 		{"", "", "return"},
 		{"Esc", `a)|(?:b`, ""},
+		{"End", `\b\1\b`, "pop"},
 	}
 	if thorough {
 		a = append(a, vRule{"Q", `"[^"]*"|\\.<>&`, ""}, vRule{"2d", `\d`, ""}, vRule{"", "", "include:B"}, vRule{"PushB", `<`, "push:B"}, vRule{"PushZ", `z`, "push:Z"}, vRule{"", "", "include:Z"}, vRule{"é", `é`, ""})
@@ -132,6 +133,9 @@ func specAccepts(states map[string][]vRule) bool {
 				}
 			}
 			if r.action != "return" && !strings.HasPrefix(r.action, "include:") {
+				if m := backrefReplace.FindStringSubmatch(r.pattern); m != nil && len(m[1])%2 == 1 {
+					continue // back-reference patterns are compiled when the state is entered
+				}
 				if _, err := syntax.Parse(r.pattern, syntax.Perl); err != nil {
 					return false // a pattern that is not a regular expression on its own must be rejected
 				}
@@ -160,12 +164,14 @@ func anchored(expr string) bool {
 
 func vFamilies(thorough bool) []map[string][]vRule {
 	alpha := vAlphabet(thorough)
-	maxRoot, maxSub := 2, 1
-	if thorough {
-		maxRoot, maxSub = 2, 2
-	}
+	maxRoot, maxSub := 2, 3
 	roots := vEnumRuleLists(alpha, maxRoot)
-	subs := vEnumRuleLists(alpha, maxSub)
+	// sub-states: up to three rules over a reduced alphabet (quick) / two over the full one plus three over the reduced one (thorough)
+	reduced := []vRule{alpha[0], alpha[1], alpha[4], alpha[6]}
+	subs := vEnumRuleLists(reduced, maxSub)
+	if thorough {
+		subs = append(subs, vEnumRuleLists(alpha, 2)...)
+	}
 	var out []map[string][]vRule
 	for _, r := range roots {
 		if len(r) == 0 {
@@ -232,7 +238,7 @@ func newNoPanic(rules Rules) (def *StatefulDefinition, err error, panicked inter
 // matches start at offset 0 (the rulesOK invariant Next's proof assumes: C03, C04, C07).
 func TestVerif_C03C04C07_New(t *testing.T) {
 	res := &verifResult{Check: "lexer.New", Property: "C03 C04 C07", Exhaustive: true,
-		Bound: "all rule maps with states Root (1-2 rules), optional A (1 rule; thorough: 1-2, plus optional B with 1 rule) over the rule alphabet of vAlphabet (plain / lower-case / underscore-initial names, metacharacter and unbalanced patterns, push, pop, include, return; thorough adds unknown targets, digit-initial and non-ASCII names); include cycles excluded",
+		Bound: "all rule maps with states Root (1-2 rules over the full alphabet), optional A (1-3 rules over {Ident, ws, Close/pop, return}; thorough: also 1-2 over the full alphabet, plus optional B with 1 rule) over the rule alphabet of vAlphabet (plain / lower-case / underscore-initial names, metacharacter and unbalanced patterns, push, pop, include, return; thorough adds unknown targets, digit-initial and non-ASCII names); include cycles excluded",
 		Rule: "distinct rule maps; non-trivial = accepted by New and containing an action, include or return"}
 	seen := map[string]bool{}
 	for _, states := range vFamilies(verifThorough()) {
@@ -289,7 +295,11 @@ func TestVerif_C03C04C07_New(t *testing.T) {
 				if got[i].ignore != wantIgnore {
 					res.violate("New(%s): rule %q ignore=%v, want %v (only names starting with a lower-case letter are dropped)", d, sr.Name, got[i].ignore, wantIgnore)
 				}
-				if spec[i].action != "return" {
+				if m := backrefReplace.FindStringSubmatch(sr.Pattern); m != nil && len(m[1])%2 == 1 {
+					if got[i].RE != nil {
+						res.violate("New(%s): back-reference rule %q was compiled eagerly", d, sr.Name)
+					}
+				} else if spec[i].action != "return" {
 					if got[i].RE == nil {
 						res.violate("New(%s): rule %q has no compiled pattern", d, sr.Name)
 					} else {
